@@ -20,6 +20,10 @@ CHECKS = {
   "reference-model monitor with unique-value execution traces on the operand stack; residual-nesting invariant through the step hook",
   "Generated programs nest exec/if/ifelse/for/repeat/forall/loop with exit and stop at arbitrary points, definitions and redefinitions, dictionary shadowing, and bind before/after operator redefinition; every body pushes literals unique in the program, so the final operand stack is an execution trace that is compared (as a state graph) with the independent evaluator's. A procedure literal is placed at every position of bodies of length 1-4 in every execution context, every operand tuple from a 14-object pool is applied to the seven control operators, and after each program one further operation is executed on the same interpreter while the step hook checks that no execution nesting, open procedure body or error level is left behind.",
   "Trusted: harness/ref/pseval.go. Programs beyond generous nesting/stack bounds belong to C11 and are not asserted here. forall over dictionaries only with single entries (enumeration order is unspecified)."),
+ "C11": ("exploration", "DESIGN.md 11/C11",
+  "invariant hook on every operation + differential runs at every budget cut point; runaway shapes with hook-observed peaks; exhaustive two-byte start-check prefixes",
+  "For each program (pinned and generated, up to 3000 operations) the unbudgeted run is traced through the step hook, then the program is re-run in a fresh interpreter for every budget N in 1..ops+2: the error must be ErrExecutionLimitExceeded exactly when N < ops, the counter exactly N+1 at return and never above N+1 at any hook call, the per-step trace a prefix of the unbudgeted trace, and with a sufficient budget the error, counter and full state digest equal the unbudgeted run's. 36 runaway shapes (pushing loops, recursion through names/exec/if/for/forall/loop/repeat, self-stored procedures, exec chains, begin loops, failing and looping error handlers, oversized array/string/dict requests) must end with the prescribed error name with hook-observed peaks below generous caps. All 65536 two-byte prefixes and short inputs are run with CheckStart set.",
+  "Trusted: the verif-tagged hook reports every counter value before the budget comparison. Caps are generous (10^4/10^3/10^3), not the implementation's constants. Wall-clock is never a verdict; a worker without any hook/reader progress for the watchdog window is re-run alone before a hang is reported."),
 }
 
 NOT_CLAIMED = {}
